@@ -353,11 +353,11 @@ func TestC10Exhaustive(t *testing.T) {
 		return k
 	}
 	universes := [][][]byte{
-		{mk(), mk(255), mk(254), mk(252)},        // deepest collisions (leaf level, last batch)
-		{mk(), mk(3), mk(4), mk(3, 200)},         // first batch boundary
-		{mk(), mk(7), mk(8), mk(8, 9)},           // second batch boundary
-		{mk(), mk(0), mk(128), mk(128, 255)},     // root split + mid
-		{mk(), mk(251), mk(247), mk(247, 251)},   // last two batches
+		{mk(), mk(255), mk(254), mk(252)},      // deepest collisions (leaf level, last batch)
+		{mk(), mk(3), mk(4), mk(3, 200)},       // first batch boundary
+		{mk(), mk(7), mk(8), mk(8, 9)},         // second batch boundary
+		{mk(), mk(0), mk(128), mk(128, 255)},   // root split + mid
+		{mk(), mk(251), mk(247), mk(247, 251)}, // last two batches
 	}
 	v1 := bytes.Repeat([]byte{1}, 32)
 	v2 := bytes.Repeat([]byte{2}, 32)
@@ -483,6 +483,8 @@ func TestC10Regression(t *testing.T) {
 		if !bytes.Equal(fr, root) {
 			t.Fatalf("delete-in-the-middle batch %v: root %x, fresh trie with the same pairs has %x", tc, root, fr)
 		}
-		rec.Case("regression", fmt.Sprint(tc), true, func() interface{} { return fmt.Sprintf("insert k%d; then batch {k%d=v, k%d=del, k%d=v}", tc[1], tc[0], tc[1], tc[2]) })
+		rec.Case("regression", fmt.Sprint(tc), true, func() interface{} {
+			return fmt.Sprintf("insert k%d; then batch {k%d=v, k%d=del, k%d=v}", tc[1], tc[0], tc[1], tc[2])
+		})
 	}
 }
